@@ -70,6 +70,28 @@ def run_property(pid: str, tier: str, seed: int, write_lock=False, verbose=False
         r = ex.verify(c)
         results.append(r)
         fuc.append(name)
+    # closure: a contract used at a call site of a verified function is itself verified in this check (modular soundness is
+    # global, but a change inside a callee should be reported by the check of every property that depends on it)
+    closure = []
+    if P.get("closure", True) and not os.environ.get("VERIF_NO_CLOSURE"):
+        done = set(fuc)
+        changed = True
+        while changed:
+            changed = False
+            used = set().union(*[r.used_contracts for r in results]) if results else set()
+            for name in sorted(used):
+                c = REG.contracts.get(name)
+                if c is None or c.trusted or c.inline or getattr(c, "checks_only", False) or name in done:
+                    continue
+                try:
+                    prog.func(name.split("#")[0])
+                except KeyError:
+                    continue
+                done.add(name)
+                results.append(ex.verify(c))
+                fuc.append(name)
+                closure.append(name)
+                changed = True
     for name, lem in REG.lemma_obs.items():
         if pid in lem["props"]:
             results.append(ex.verify_lemma(lem))
@@ -273,6 +295,12 @@ def run_property(pid: str, tier: str, seed: int, write_lock=False, verbose=False
     trusted_used = [u for u in used if u in REG.contracts and REG.contracts[u].trusted]
     assumptions = list(P.get("assumptions", [])) + list(REG.assumptions)
     assumptions += [f"trusted contract (not verified): {u}" for u in trusted_used]
+    unverified_used = [u for u in used if u in REG.contracts and not REG.contracts[u].trusted and not REG.contracts[u].inline
+                       and u not in fuc]
+    assumptions += [f"contract used at call sites as an abstraction, not verified in this check: {u}" +
+                    (f" ({REG.contracts[u].note})" if REG.contracts[u].note else "") for u in unverified_used]
+    casts = sorted(getattr(ex, "assumed_casts", set()))
+    assumptions += [f"unchecked cast: {c_}" for c_ in casts]
     ev = {
         "property_id": pid, "tier": tier, "seed": seed,
         "level": P.get("category", "proof"),
@@ -285,6 +313,7 @@ def run_property(pid: str, tier: str, seed: int, write_lock=False, verbose=False
                            f"{len(undecided)} undecided, {len(violations)} violations, {len(known_hits)} known findings."),
             "obligation_instances": n_inst + len(ground),
             "functions_under_contract": fuc,
+            "verified_because_called_by_those": closure,
             "inlined_accessors": inlined,
             "contracts_used_at_call_sites": used,
             "by_backend": by_backend,
